@@ -533,6 +533,9 @@ class CaseInterp:
         short = c.short
         if short in self.ext or c.qname in self.ext:
             return self.named_call(c.name, short, args, c)
+        if c.name in ('next', 'count', 'map', 'filter', 'enumerate', 'rev', 'into_iter', 'iter', 'by_ref', 'filter_map') and args and isinstance(args[0], tuple) and args[0][:1] == ('pipe',):
+            # a modelled iterator, whatever concrete type the callee belongs to
+            return self.named_call(c.name, short, args, c)
         # a crate-local callee is interpreted in turn (its own externals are the same table)
         if c.local and c.name not in ('call', 'call_mut', 'call_once'):
             tgt = c.resolved or c.def_path
